@@ -8,7 +8,8 @@ Bind : every enumerated shape is instantiated as a real Python value and substit
        cassandra.query.bind_params positionally ("%s") and by name ("%(a)s") with a stock Encoder; the produced
        characters are a trace validated by TLC against Trace_CqlTerm.tla: exactly one term, of the kind Expect
        gives for the type tag; decoded string / blob / integer / uuid content equal to the original.
-Not covered: that a float / decimal / timestamp literal denotes the same number as the prepared path.
+Not covered: that a float / decimal / date / time literal denotes the same number as the prepared path; timestamps are
+       decided only for datetimes near the epoch (naive, UTC offset 0, +2 h, -1 h): literal = wall - offset (ms) = DateType.serialize.
 """
 import json
 import os
@@ -32,17 +33,23 @@ META = {
                   "depth 3) and proves on the specification that the canonical literal of each shape is recognised as "
                   "exactly one term of the expected kind; every shape is then bound by the real code positionally and by "
                   "name and TLC accepts or rejects the produced characters with the same recogniser, comparing decoded "
-                  "text, blob, integer and uuid content with the original. Exhaustive over the enumerated shapes.",
-    "level_note": "Structural half of C29 only: NOT covered is that a float / decimal / timestamp / date literal denotes "
-                  "the same number as the prepared-statement path (numeric comparison; Expect only asks for a number, "
-                  "integer or string token there). Trusted: TLC; the transcription of Cassandra's Lexer.g/Parser.g term "
+                  "text, blob, integer and uuid content with the original, and for timezone-aware / naive datetimes near the "
+                  "epoch the literal's integer with the instant (wall clock - UTC offset, ms) computed in the specification "
+                  "and with DateType.serialize. Exhaustive over the enumerated shapes.",
+    "level_note": "Structural half of C29, plus timestamps near the epoch: NOT covered is that a float / decimal / date / "
+                  "time literal (and a datetime far from the epoch) denotes the same number as the prepared-statement path "
+                  "(numeric comparison; Expect only asks for a number, integer or string token there). For datetimes "
+                  "1970-01-01 + {0, 1 s, 1 day + 123 ms} that are naive or carry a UTC offset of 0, +2 h or -1 h the literal "
+                  "must be exactly the integer wall - offset (ms) of the specification AND equal the 8-byte value "
+                  "DateType.serialize sends on the prepared path. Trusted: TLC; the transcription of Cassandra's Lexer.g/Parser.g term "
                   "grammar into CqlLex.tla/CqlTerm.tla (durations, $$-strings, comments, bind markers, function calls, "
                   "type casts and UDT literals are not literal terms the encoder targets); the harness's instantiation "
                   "of a shape as a Python value. Children alphabets are small (5 quick / 9 thorough values).",
     "design_ref": "5.7 C29",
 }
 
-WITNESSES = ["Witness_Depth3", "Witness_MapInList", "Witness_EmptyBrace", "Witness_QuoteInStr"]
+WITNESSES = ["Witness_Depth3", "Witness_MapInList", "Witness_EmptyBrace", "Witness_QuoteInStr", "Witness_AwareBeforeEpoch"]
+PREPARED_SIG = "Encoder.cql_encode_datetime:literal-differs-from-DateType.serialize"
 SUBCLASS_SIG = "Encoder.mapping:exact-type-dispatch:subclass-of-supported-type-falls-to-str"
 MODES = (("positional", "%s"), ("named", "%(a)s"))
 
@@ -85,7 +92,17 @@ def culprit(shape, want, mode):
     return shape
 
 
-def signature(shape, want, mode, out):
+def prepared_ms(shape):
+    """-> (milliseconds DateType.serialize sends for a datetime_tz shape / list of one, error); (None, None) otherwise."""
+    try:
+        return cqllex.prepared_epoch_ms(shape), None
+    except Exception as ex:                       # a (mutated) driver may raise
+        return None, "%s: %s" % (type(ex).__name__, ex)
+
+
+def signature(shape, want, mode, out, why=""):
+    if why.startswith("prepared"):
+        return PREPARED_SIG
     if cqllex.has_subclass(shape):
         bout, berr = bind(shape, mode, base=True)
         if berr is None and cqllex.mirror_term_accepts(want, bout):
@@ -202,7 +219,17 @@ def run(ctx):
             if cqllex.mirror_term_accepts(want, out) != accepted[i]:
                 raise tlc.MachineryError("Python mirror and TLC disagree on %r (TLC %s)" % (out, accepted[i]))
             if accepted[i]:
-                ctx.traces_validated += 1
+                # timestamps: the accepted literal is the specification's integer; it must also be what the
+                # prepared-statement path (DateType.serialize) sends for the same value
+                pm, perr = prepared_ms(shape)
+                if perr is not None:
+                    failures.append((shape, want, mode, out, None, "prepared path raised %s" % perr))
+                elif pm is not None and cqllex.literal_epoch_ms(shape, out) != pm:
+                    failures.append((shape, want, mode, out, None, "prepared path sends %d ms" % pm))
+                else:
+                    ctx.traces_validated += 1
+                    if pm is not None:
+                        ctx.count("timestamp_literals_equal_to_prepared_path")
             else:
                 failures.append((shape, want, mode, out, None, "rejected at character %d" % max(progress[i] - 2, 0)))
     report(ctx, failures)
@@ -213,7 +240,8 @@ def run(ctx):
     ctx.assumptions += ["a stock cassandra.encoder.Encoder() (no user-registered UDT / tuple encoders); the literal is "
                         "judged on its own (query text '%s' / '%(a)s')",
                         "literal terms = Cassandra 3.0-4.x constant / collectionLiteral / tupleLiteral / NULL",
-                        "numeric equality of float/decimal/timestamp literals with the prepared path is NOT decided"]
+                        "numeric equality of float/decimal/date/time literals with the prepared path is NOT decided; "
+                        "timestamps are decided only for the datetime_tz shapes (near the epoch, offsets none/0/+2h/-1h)"]
 
 
 def describe(shape, want, mode, out, err):
@@ -221,22 +249,26 @@ def describe(shape, want, mode, out, err):
     if err is not None:
         return "bind_params(%s) of %s value %r raised %s" % (mode, type(val).__name__, val, err)
     ok, terms = cqllex.mirror_term(out)
-    return ("bind_params(%s) of %s value %r produced %r, which CQL reads as %s%r - wanted exactly one term %s"
-            % (mode, type(val).__name__, val, out, "" if ok else "(not literal terms) ", terms, json.dumps(want)))
+    extra = ""
+    pm, perr = prepared_ms(shape)
+    if pm is not None:
+        extra = "; DateType.serialize (prepared path) sends %d ms for this value" % pm
+    return ("bind_params(%s) of %s value %r produced %r, which CQL reads as %s%r - wanted exactly one term %s%s"
+            % (mode, type(val).__name__, val, out, "" if ok else "(not literal terms) ", terms, json.dumps(want), extra))
 
 
 def report(ctx, failures):
     by_sig = {}
     for f in failures:
         shape, want, mode, out, err, why = f
-        by_sig.setdefault(signature(shape, want, mode, out), []).append(f)
+        by_sig.setdefault(signature(shape, want, mode, out, why), []).append(f)
     for sig in sorted(by_sig):
         cases = sorted(by_sig[sig], key=lambda c: (len(json.dumps(c[0])), json.dumps(c[0], sort_keys=True), c[2]))
         pick = next((c for c in cases if c[0]["tag"] == "MyStr" and c[0]["p"] == ["a", "'", "b"] and c[2] == "positional"), cases[0])
         shape, want, mode, out, err, why = pick
         tags = sorted(set(c[0]["tag"] for c in cases))
-        ctx.violation("%s  [%d cases with this signature; outermost type tags: %s]" % (
-            describe(shape, want, mode, out, err), len(cases), ", ".join(tags)),
+        ctx.violation("%s%s  [%d cases with this signature; outermost type tags: %s]" % (
+            describe(shape, want, mode, out, err), " (%s)" % why if why.startswith("prepared") else "", len(cases), ", ".join(tags)),
             replay={"shape": shape, "want": want, "mode": mode, "output": out,
                     "more": [{"shape": c[0], "want": c[1], "mode": c[2], "output": c[3]} for c in cases[:25] if c is not pick]},
             signature=sig)
@@ -248,6 +280,10 @@ def replay(ctx, r):
     for c in cases:
         out, err = bind(c["shape"], c["mode"])
         ok = err is None and cqllex.mirror_term_accepts(c["want"], out)
+        pm, perr = prepared_ms(c["shape"])
+        if ok and (perr is not None or (pm is not None and cqllex.literal_epoch_ms(c["shape"], out) != pm)):
+            ok = False
+            print("   prepared path: %s" % (perr or "%d ms" % pm))
         print("%-10s %r -> %r  %s" % (c["mode"], cqllex.instantiate(c["shape"]), out if err is None else err,
                                       "one term as expected" if ok else "NOT the expected single term: %r" % (
                                           cqllex.mirror_term(out)[1] if out is not None else None,)))
